@@ -570,6 +570,50 @@ func runC19(ctx *core.Ctx) {
 			cs.Flush(lc)
 		})
 	}
+	// keyword combinations: every concatenation of two prefixes / suffixes (>= 2 bytes) of a matcher's own
+	// documented keywords and examples (a pattern refactored into optional parts admits some of them)
+	for mi := range ms {
+		m := &ms[mi]
+		re := m.re()
+		ctx.RunSeq("combinations:"+m.name, 1, func(cs *core.Case) {
+			seen := map[string]bool{}
+			var parts []string
+			for _, ex := range m.examples {
+				if len(ex) > 12 {
+					continue
+				}
+				for k := 2; k <= len(ex); k++ {
+					for _, piece := range []string{ex[:k], ex[len(ex)-k:]} {
+						if !seen[piece] {
+							seen[piece] = true
+							parts = append(parts, piece)
+						}
+					}
+				}
+			}
+			sort.Strings(parts)
+			if len(parts) > 120 {
+				parts = parts[:120]
+			}
+			lc := core.LocalCounts{}
+			for _, a := range parts {
+				for _, b := range parts {
+					for _, w := range []string{a + b, strings.ToUpper(a) + b} {
+						cs.Eval()
+						lc["keyword_combinations_tried"]++
+						if re.MatchString(w) {
+							lc["accepted_by_matcher"]++
+							cs.Nontrivial(core.Hash(m.name, w))
+							if !m.rec(w) {
+								cs.Violate(c19Signature(m, w), fmt.Sprintf("%s accepts %q which is not of its documented form", m.name, w), map[string]interface{}{"matcher": m.name, "value": core.Show(w)})
+							}
+						}
+					}
+				}
+			}
+			cs.Flush(lc)
+		})
+	}
 	ctx.Floor("dictionary_words_tried", 10000)
 	ctx.Floor("long_strings_tried", 100000)
 	ctx.MinNontrivial(200)
